@@ -247,7 +247,7 @@ def make_scenario(rnd, kind):
             sc.extra = ["--sort-cols", "text", "--cols", str(sc.ncols)]
         elif kind == "spark" and rnd.intn(3) == 0:
             # a value-ordered column sort never trims the aggregate (b216f7d): the export is the whole table
-            sc.extra = ["--sort-cols", rnd.pick(["value", "value:asc", "VALUE:rev"]), "--cols", str(rnd.pick([1, 2, 3]))]
+            sc.extra = ["--sort-cols", rnd.pick(["value", "value:asc", "VALUE:rev", "VALUE", "Value:desc"]), "--cols", str(rnd.pick([1, 2, 3]))]
         elif kind == "table":
             sc.extra = rnd.pick([[], ["--sort-rows", "text"], ["-x"], ["--sort-cols", "numeric", "--cols", "2"]])
     elif kind == "bars":
@@ -332,7 +332,7 @@ def make_phase_scenario(rnd, kind):
             sc.extra = ["--sort-cols", "text", "--cols", str(sc.ncols)]
         elif kind == "spark" and rnd.intn(3) == 0:
             # a value-ordered column sort never trims the aggregate (b216f7d): the export is the whole table
-            sc.extra = ["--sort-cols", rnd.pick(["value", "value:asc", "VALUE:rev"]), "--cols", str(rnd.pick([1, 2, 3]))]
+            sc.extra = ["--sort-cols", rnd.pick(["value", "value:asc", "VALUE:rev", "VALUE", "Value:desc"]), "--cols", str(rnd.pick([1, 2, 3]))]
     elif kind == "table":
         sc.extra = rnd.pick([[], ["--sort-rows", "text"], ["-x"], ["--sort-cols", "numeric", "--cols", "2"], ["--rows", "3"]])
     else:
@@ -917,12 +917,12 @@ def snap_check(sc, snap, rows, nsamples=None, nread=None, cache=None):
 
 # ------------------------------------------------------------------ the timing-controlled spark run (F24)
 
-def spark_timing(exe):
+def spark_timing(exe, sort_cols="value:asc"):
     """`spark --sort-cols value:asc --cols 1`: the same nine lines, once in one go, once with a pause after the
     fourth line so that a periodic render (which trims every column but the one it currently ranks last) runs in
     between.  Returns (fast_csv, slow_csv)."""
     a, b = b"a r\na r\na r\nb r\n", b"b r\nb r\nb r\nb r\nc r\n"
-    cmd = [exe, "--nocolor", "--noformat", "spark", "-m", r"(\w+) (\w+)", "-e", "{1}", "-e", "{2}", "--sort-cols", "value:asc",
+    cmd = [exe, "--nocolor", "--noformat", "spark", "-m", r"(\w+) (\w+)", "-e", "{1}", "-e", "{2}", "--sort-cols", sort_cols,
            "--cols", "1", "--batch", "1", "--csv", "-"]
     fast = subprocess.run(cmd, input=a + b, stdout=subprocess.PIPE, stderr=subprocess.PIPE, timeout=60).stdout
     p = subprocess.Popen(cmd, stdin=subprocess.PIPE, stdout=subprocess.PIPE, stderr=subprocess.PIPE)
@@ -1350,6 +1350,12 @@ def run_extra(ctx):
     nruns[0] += 2
     if fast != slow or fast != b",a,b,c\nr,3,5,1\n":
         viol("spark-value-trim-timing", cmd=show(cmd), all_at_once=fast.decode(), with_pause=slow.decode(), expected=",a,b,c\nr,3,5,1\n",
+             explanation="spark with a value-ordered column sort trims columns inside intermediate renders, so the exported table depends on render timing")
+    # the same with an upper-case spelling of the value order (sort names are case-insensitive: seeded/C03-sortsbyvalue-case)
+    fast, slow, cmd = spark_timing(exe, "VALUE:Asc")
+    nruns[0] += 2
+    if fast != slow or fast != b",a,b,c\nr,3,5,1\n":
+        viol("spark-value-trim-timing-spelling", cmd=show(cmd), all_at_once=fast.decode(), with_pause=slow.decode(), expected=",a,b,c\nr,3,5,1\n",
              explanation="spark with a value-ordered column sort trims columns inside intermediate renders, so the exported table depends on render timing")
     # ---- timing-controlled padding of the final frame (F25)
     fast, slow, cmd = layout_memory_timing(exe)
